@@ -1,6 +1,773 @@
-//! C09: heap_size against the simulated allocator's ledger (built later in this file).
+//! C09 — heap_size against the simulated allocator's ledger.
+//!
+//! The simulated component is the allocator (`SimAlloc`): its per-thread ledger of live requested
+//! bytes is the ground truth for "bytes the value currently holds".  Values of a menu of concrete
+//! types are built by seeded *build histories* (with_capacity / push / extend / reserve / shrink /
+//! truncate / clear at every nesting level), and after every history step
+//! `live bytes now - live bytes before the value existed == heap_size()` must hold (for HashMap /
+//! HashSet: the documented lower and upper bounds).  There is no fault or schedule dimension.
 
-pub fn check_main(_tier: &str, _seed: u64) -> i32 {
-    eprintln!("harness error: C09 check not built yet");
-    2
+use crate::alloc;
+use crate::coord::{is_known_pub, load_known, replay_dir, root_dir};
+use crate::prng::{derive, Digest, Rng};
+use lru_mem::HeapSize;
+use serde_json::json;
+use std::collections::{BTreeMap, BinaryHeap, HashMap, HashSet};
+use std::ffi::{CString, OsString};
+use std::num::Wrapping;
+use std::path::PathBuf;
+use std::sync::{Mutex, RwLock};
+
+#[derive(Clone, Debug)]
+pub struct Mismatch {
+    pub case: usize,
+    pub name: &'static str,
+    pub step: usize,
+    pub heap_size: usize,
+    pub allocator: isize,
+    pub detail: String,
+}
+
+pub struct CaseOut {
+    pub checks: u64,
+    pub nontrivial: Vec<u64>,
+    pub mismatch: Option<Mismatch>,
+    pub sample: Option<String>,
+}
+
+struct Probe<'a> {
+    case: usize,
+    name: &'static str,
+    base: isize,
+    step: usize,
+    out: &'a mut CaseOut,
+    max_steps: usize,
+}
+
+impl<'a> Probe<'a> {
+    /// exact conservation: allocator bytes attributed to the value == heap_size()
+    fn exact<T: HeapSize + ?Sized>(&mut self, v: &T, shape: (usize, usize)) {
+        let held = alloc::live_bytes() - self.base;
+        let hs = v.heap_size();
+        // the harness's own bookkeeping must not appear in the ledger
+        alloc::set_tracking(false);
+        self.out.checks += 1;
+        if held > 0 {
+            let mut d = Digest::new();
+            d.u64(self.case as u64);
+            d.usize(hs);
+            d.usize(shape.0);
+            d.usize(shape.1);
+            self.out.nontrivial.push(d.finish());
+        }
+        if hs as isize != held && self.out.mismatch.is_none() {
+            self.out.mismatch = Some(Mismatch { case: self.case, name: self.name, step: self.step, heap_size: hs, allocator: held, detail: format!("len/cap shape {:?}", shape) });
+        }
+        if self.out.sample.is_none() && held > 0 && self.step >= 2 {
+            self.out.sample = Some(format!("{} after {} history steps: heap_size {} == allocator bytes {} (top-level len {}, capacity {})", self.name, self.step, hs, held, shape.0, shape.1));
+        }
+        self.step += 1;
+        alloc::set_tracking(true);
+    }
+
+    /// bounds for hash containers: lower <= heap_size <= allocator bytes
+    fn bounded<T: HeapSize + ?Sized>(&mut self, v: &T, lower: usize, shape: (usize, usize)) {
+        let held = alloc::live_bytes() - self.base;
+        let hs = v.heap_size();
+        // the harness's own bookkeeping must not appear in the ledger
+        alloc::set_tracking(false);
+        self.out.checks += 1;
+        if held > 0 {
+            let mut d = Digest::new();
+            d.u64(self.case as u64);
+            d.usize(hs);
+            d.usize(shape.0);
+            d.usize(shape.1);
+            self.out.nontrivial.push(d.finish());
+        }
+        if (hs as isize > held || hs < lower) && self.out.mismatch.is_none() {
+            self.out.mismatch = Some(Mismatch { case: self.case, name: self.name, step: self.step, heap_size: hs, allocator: held, detail: format!("required: {} <= heap_size <= allocator bytes; shape {:?}", lower, shape) });
+        }
+        self.step += 1;
+        alloc::set_tracking(true);
+    }
+}
+
+// ------------------------------------------------------------------------------------------
+// element generators and history steps
+
+fn gen_string(rng: &mut Rng) -> String {
+    let mut s = match rng.below(4) {
+        0 => String::new(),
+        1 => String::with_capacity(rng.below(64) as usize),
+        2 => "x".repeat(rng.below(20) as usize),
+        _ => {
+            let mut s = String::with_capacity(rng.below(40) as usize);
+            s.push_str(&"ab".repeat(rng.below(8) as usize));
+            s
+        }
+    };
+    for _ in 0..rng.below(4) {
+        step_string(&mut s, rng);
+    }
+    s
+}
+
+fn step_string(s: &mut String, rng: &mut Rng) {
+    match rng.below(9) {
+        0 => s.push_str(&"q".repeat(rng.below(24) as usize)),
+        1 => s.push('z'),
+        2 => s.reserve(rng.below(50) as usize),
+        3 => s.reserve_exact(rng.below(50) as usize),
+        4 => s.shrink_to_fit(),
+        5 => s.shrink_to(rng.below(30) as usize),
+        6 => s.truncate(rng.below(10) as usize),
+        7 => s.clear(),
+        _ => {
+            s.pop();
+        }
+    }
+}
+
+fn gen_vec<T>(rng: &mut Rng, elem: &dyn Fn(&mut Rng) -> T) -> Vec<T> {
+    let mut v = match rng.below(3) {
+        0 => Vec::new(),
+        1 => Vec::with_capacity(rng.below(20) as usize),
+        _ => (0..rng.below(6)).map(|_| elem(rng)).collect(),
+    };
+    for _ in 0..rng.below(4) {
+        step_vec(&mut v, rng, elem);
+    }
+    v
+}
+
+fn step_vec<T>(v: &mut Vec<T>, rng: &mut Rng, elem: &dyn Fn(&mut Rng) -> T) {
+    match rng.below(11) {
+        0 | 1 => v.push(elem(rng)),
+        2 => {
+            let n = rng.below(5);
+            v.extend((0..n).map(|_| elem(rng)));
+        }
+        3 => v.reserve(rng.below(30) as usize),
+        4 => v.reserve_exact(rng.below(30) as usize),
+        5 => v.shrink_to_fit(),
+        6 => v.shrink_to(rng.below(12) as usize),
+        7 => v.truncate(rng.below(6) as usize),
+        8 => v.clear(),
+        9 => {
+            v.pop();
+        }
+        _ => {
+            if !v.is_empty() {
+                let i = rng.usize_below(v.len());
+                v.insert(i, elem(rng));
+            }
+        }
+    }
+}
+
+fn gen_heap<T: Ord>(rng: &mut Rng, elem: &dyn Fn(&mut Rng) -> T) -> BinaryHeap<T> {
+    let mut h = if rng.bool() { BinaryHeap::new() } else { BinaryHeap::with_capacity(rng.below(20) as usize) };
+    for _ in 0..rng.below(5) {
+        step_heap(&mut h, rng, elem);
+    }
+    h
+}
+
+fn step_heap<T: Ord>(h: &mut BinaryHeap<T>, rng: &mut Rng, elem: &dyn Fn(&mut Rng) -> T) {
+    match rng.below(7) {
+        0..=2 => h.push(elem(rng)),
+        3 => h.reserve(rng.below(20) as usize),
+        4 => h.shrink_to_fit(),
+        5 => {
+            h.pop();
+        }
+        _ => h.clear(),
+    }
+}
+
+fn gen_osstring(rng: &mut Rng) -> OsString {
+    let mut s = if rng.bool() { OsString::new() } else { OsString::with_capacity(rng.below(64) as usize) };
+    for _ in 0..rng.below(5) {
+        step_osstring(&mut s, rng);
+    }
+    s
+}
+
+fn step_osstring(s: &mut OsString, rng: &mut Rng) {
+    match rng.below(6) {
+        0 | 1 => s.push("w".repeat(rng.below(20) as usize)),
+        2 => s.reserve(rng.below(40) as usize),
+        3 => s.reserve_exact(rng.below(40) as usize),
+        4 => s.shrink_to_fit(),
+        _ => s.clear(),
+    }
+}
+
+fn gen_pathbuf(rng: &mut Rng) -> PathBuf {
+    let mut p = match rng.below(3) {
+        0 => PathBuf::new(),
+        1 => PathBuf::with_capacity(rng.below(100) as usize),
+        _ => PathBuf::from("/usr/local"),
+    };
+    for _ in 0..rng.below(5) {
+        step_pathbuf(&mut p, rng);
+    }
+    p
+}
+
+fn step_pathbuf(p: &mut PathBuf, rng: &mut Rng) {
+    match rng.below(8) {
+        0 | 1 => p.push("d".repeat(1 + rng.below(12) as usize)),
+        2 => {
+            p.pop();
+        }
+        3 => p.reserve(rng.below(60) as usize),
+        4 => p.reserve_exact(rng.below(60) as usize),
+        5 => p.shrink_to_fit(),
+        6 => {
+            p.set_extension("txt");
+        }
+        _ => p.clear(),
+    }
+}
+
+fn gen_cstring(rng: &mut Rng) -> CString {
+    CString::new("c".repeat(rng.below(30) as usize)).unwrap()
+}
+
+fn gen_bytes(rng: &mut Rng) -> Vec<u8> {
+    gen_vec(rng, &|r| r.next_u64() as u8)
+}
+
+type Pair = (String, Option<Vec<u8>>);
+
+fn gen_pair(rng: &mut Rng) -> Pair {
+    (gen_string(rng), if rng.bool() { Some(gen_bytes(rng)) } else { None })
+}
+
+// ------------------------------------------------------------------------------------------
+// the menu
+
+pub const N_CASES: usize = 46;
+
+pub fn case_name(i: usize) -> &'static str {
+    CASE_NAMES[i]
+}
+
+const CASE_NAMES: [&str; N_CASES] = [
+    "String",
+    "Vec<u8>",
+    "Vec<u32>",
+    "Vec<()>",
+    "Vec<String>",
+    "Vec<Vec<u16>>",
+    "Vec<Box<[u16]>>",
+    "Vec<(String, Option<Vec<u8>>)>",
+    "Vec<[String; 2]>",
+    "Vec<Option<Box<str>>>",
+    "Box<u64>",
+    "Box<[u16]>",
+    "Box<str>",
+    "Box<CStr>",
+    "Box<Path>",
+    "Box<Vec<String>>",
+    "Box<[String]>",
+    "Box<(u8, String)>",
+    "BinaryHeap<u32>",
+    "BinaryHeap<String>",
+    "CString",
+    "OsString",
+    "PathBuf",
+    "(String, Vec<u8>)",
+    "(u8, String, Vec<u32>, PathBuf)",
+    "[String; 0]",
+    "[String; 1]",
+    "[Vec<u8>; 3]",
+    "Option<String>",
+    "Option<PathBuf>",
+    "Result<String, Vec<u8>>",
+    "Wrapping<u64>",
+    "Range<String>",
+    "RangeInclusive<String>",
+    "RangeFrom<Vec<u8>>",
+    "RangeTo<OsString>",
+    "RangeToInclusive<String>",
+    "Mutex<String>",
+    "RwLock<Vec<String>>",
+    "Mutex<PathBuf>",
+    "HashMap<u32, String>",
+    "HashSet<String>",
+    "&String",
+    "(&Vec<u8>, String)",
+    "Vec<PathBuf>",
+    "Option<Box<(OsString, CString)>>",
+];
+
+/// Executes one case: builds a value by a seeded history, checking conservation after each step.
+pub fn run_case(case: usize, seed: u64) -> CaseOut {
+    let mut out = CaseOut { checks: 0, nontrivial: Vec::new(), mismatch: None, sample: None };
+    let mut rng = Rng::new(seed);
+    let rng = &mut rng;
+    let steps = 1 + rng.usize_below(8);
+    alloc::set_tracking(true);
+    let base = alloc::live_bytes();
+    let mut p = Probe { case, name: CASE_NAMES[case], base, step: 0, out: &mut out, max_steps: steps };
+    let _ = p.max_steps;
+    match case {
+        0 => {
+            let mut v = gen_string(rng);
+            p.exact(&v, (v.len(), v.capacity()));
+            for _ in 0..steps {
+                step_string(&mut v, rng);
+                p.exact(&v, (v.len(), v.capacity()));
+            }
+        }
+        1 => hist_vec(&mut p, rng, steps, &|r| r.next_u64() as u8),
+        2 => hist_vec(&mut p, rng, steps, &|r| r.next_u64() as u32),
+        3 => hist_vec(&mut p, rng, steps, &|_| ()),
+        4 => hist_vec(&mut p, rng, steps, &gen_string),
+        5 => hist_vec(&mut p, rng, steps, &|r| gen_vec(r, &|r| r.next_u64() as u16)),
+        6 => hist_vec(&mut p, rng, steps, &|r| gen_vec(r, &|r| r.next_u64() as u16).into_boxed_slice()),
+        7 => hist_vec(&mut p, rng, steps, &gen_pair),
+        8 => hist_vec(&mut p, rng, steps, &|r| [gen_string(r), gen_string(r)]),
+        9 => hist_vec(&mut p, rng, steps, &|r| if r.bool() { Some(gen_string(r).into_boxed_str()) } else { None }),
+        10 => {
+            let v = Box::new(rng.next_u64());
+            p.exact(&v, (1, 1));
+        }
+        11 => {
+            let v = gen_vec(rng, &|r| r.next_u64() as u16).into_boxed_slice();
+            p.exact(&v, (v.len(), v.len()));
+        }
+        12 => {
+            let v = gen_string(rng).into_boxed_str();
+            p.exact(&v, (v.len(), v.len()));
+        }
+        13 => {
+            let v = gen_cstring(rng).into_boxed_c_str();
+            p.exact(&v, (v.to_bytes().len(), 0));
+        }
+        14 => {
+            let v = gen_pathbuf(rng).into_boxed_path();
+            p.exact(&v, (v.as_os_str().len(), 0));
+        }
+        15 => {
+            let mut v = Box::new(gen_vec(rng, &gen_string));
+            p.exact(&v, (v.len(), v.capacity()));
+            for _ in 0..steps {
+                step_vec(&mut v, rng, &gen_string);
+                p.exact(&v, (v.len(), v.capacity()));
+            }
+        }
+        16 => {
+            let v = gen_vec(rng, &gen_string).into_boxed_slice();
+            p.exact(&v, (v.len(), v.len()));
+        }
+        17 => {
+            let v = Box::new((rng.next_u64() as u8, gen_string(rng)));
+            p.exact(&v, (v.1.len(), v.1.capacity()));
+        }
+        18 => hist_heap(&mut p, rng, steps, &|r| r.next_u64() as u32),
+        19 => hist_heap(&mut p, rng, steps, &gen_string),
+        20 => {
+            let v = gen_cstring(rng);
+            p.exact(&v, (v.as_bytes().len(), 0));
+        }
+        21 => {
+            let mut v = gen_osstring(rng);
+            p.exact(&v, (v.len(), v.capacity()));
+            for _ in 0..steps {
+                step_osstring(&mut v, rng);
+                p.exact(&v, (v.len(), v.capacity()));
+            }
+        }
+        22 => {
+            let mut v = gen_pathbuf(rng);
+            p.exact(&v, (v.as_os_str().len(), v.capacity()));
+            for _ in 0..steps {
+                step_pathbuf(&mut v, rng);
+                p.exact(&v, (v.as_os_str().len(), v.capacity()));
+            }
+        }
+        23 => {
+            let mut v = (gen_string(rng), gen_bytes(rng));
+            p.exact(&v, (v.0.len(), v.1.capacity()));
+            for _ in 0..steps {
+                if rng.bool() {
+                    step_string(&mut v.0, rng);
+                } else {
+                    step_vec(&mut v.1, rng, &|r| r.next_u64() as u8);
+                }
+                p.exact(&v, (v.0.len(), v.1.capacity()));
+            }
+        }
+        24 => {
+            let mut v = (7u8, gen_string(rng), gen_vec(rng, &|r| r.next_u64() as u32), gen_pathbuf(rng));
+            p.exact(&v, (v.1.len(), v.2.capacity()));
+            for _ in 0..steps {
+                match rng.below(3) {
+                    0 => step_string(&mut v.1, rng),
+                    1 => step_vec(&mut v.2, rng, &|r| r.next_u64() as u32),
+                    _ => step_pathbuf(&mut v.3, rng),
+                }
+                p.exact(&v, (v.1.len(), v.2.capacity()));
+            }
+        }
+        25 => {
+            let v: [String; 0] = [];
+            p.exact(&v, (0, 0));
+        }
+        26 => {
+            let mut v = [gen_string(rng)];
+            p.exact(&v, (v[0].len(), v[0].capacity()));
+            for _ in 0..steps {
+                step_string(&mut v[0], rng);
+                p.exact(&v, (v[0].len(), v[0].capacity()));
+            }
+        }
+        27 => {
+            let mut v = [gen_bytes(rng), gen_bytes(rng), gen_bytes(rng)];
+            p.exact(&v, (v[0].len(), v[2].capacity()));
+            for _ in 0..steps {
+                let i = rng.usize_below(3);
+                step_vec(&mut v[i], rng, &|r| r.next_u64() as u8);
+                p.exact(&v, (v[0].len(), v[2].capacity()));
+            }
+        }
+        28 => {
+            let v = if rng.chance(1, 4) { None } else { Some(gen_string(rng)) };
+            p.exact(&v, (v.as_ref().map(|s| s.len()).unwrap_or(0), v.as_ref().map(|s| s.capacity()).unwrap_or(0)));
+        }
+        29 => {
+            let v = if rng.chance(1, 4) { None } else { Some(gen_pathbuf(rng)) };
+            p.exact(&v, (v.as_ref().map(|s| s.as_os_str().len()).unwrap_or(0), v.as_ref().map(|s| s.capacity()).unwrap_or(0)));
+        }
+        30 => {
+            let v: Result<String, Vec<u8>> = if rng.bool() { Ok(gen_string(rng)) } else { Err(gen_bytes(rng)) };
+            p.exact(&v, (v.is_ok() as usize, 0));
+        }
+        31 => {
+            let v = Wrapping(rng.next_u64());
+            p.exact(&v, (0, 0));
+        }
+        32 => {
+            let v = gen_string(rng)..gen_string(rng);
+            p.exact(&v, (v.start.len(), v.end.capacity()));
+        }
+        33 => {
+            let v = gen_string(rng)..=gen_string(rng);
+            p.exact(&v, (v.start().len(), v.end().capacity()));
+        }
+        34 => {
+            let v = gen_bytes(rng)..;
+            p.exact(&v, (v.start.len(), v.start.capacity()));
+        }
+        35 => {
+            let v = ..gen_osstring(rng);
+            p.exact(&v, (v.end.len(), v.end.capacity()));
+        }
+        36 => {
+            let v = ..=gen_string(rng);
+            p.exact(&v, (v.end.len(), v.end.capacity()));
+        }
+        37 => {
+            let v = Mutex::new(gen_string(rng));
+            let shape = {
+                let g = v.lock().unwrap();
+                (g.len(), g.capacity())
+            };
+            p.exact(&v, shape);
+            for _ in 0..steps {
+                step_string(&mut v.lock().unwrap(), rng);
+                let shape = {
+                    let g = v.lock().unwrap();
+                    (g.len(), g.capacity())
+                };
+                p.exact(&v, shape);
+            }
+        }
+        38 => {
+            let v = RwLock::new(gen_vec(rng, &gen_string));
+            for _ in 0..steps {
+                step_vec(&mut v.write().unwrap(), rng, &gen_string);
+                let shape = {
+                    let g = v.read().unwrap();
+                    (g.len(), g.capacity())
+                };
+                p.exact(&v, shape);
+            }
+        }
+        39 => {
+            let v = Mutex::new(gen_pathbuf(rng));
+            for _ in 0..steps {
+                step_pathbuf(&mut v.lock().unwrap(), rng);
+                let shape = {
+                    let g = v.lock().unwrap();
+                    (g.as_os_str().len(), g.capacity())
+                };
+                p.exact(&v, shape);
+            }
+        }
+        40 => {
+            let mut v: HashMap<u32, String> = if rng.bool() { HashMap::new() } else { HashMap::with_capacity(rng.below(40) as usize) };
+            for _ in 0..steps + 2 {
+                match rng.below(6) {
+                    0..=2 => {
+                        v.insert(rng.below(50) as u32, gen_string(rng));
+                    }
+                    3 => {
+                        v.remove(&(rng.below(50) as u32));
+                    }
+                    4 => v.reserve(rng.below(30) as usize),
+                    _ => v.shrink_to_fit(),
+                }
+                let lower = v.capacity() * std::mem::size_of::<(u32, String)>() + v.values().map(|s| s.capacity()).sum::<usize>();
+                p.bounded(&v, lower, (v.len(), v.capacity()));
+            }
+        }
+        41 => {
+            let mut v: HashSet<String> = if rng.bool() { HashSet::new() } else { HashSet::with_capacity(rng.below(40) as usize) };
+            for _ in 0..steps + 2 {
+                match rng.below(6) {
+                    0..=2 => {
+                        v.insert(gen_string(rng));
+                    }
+                    3 => {
+                        let k = v.iter().next().cloned();
+                        if let Some(k) = k {
+                            v.remove(&k);
+                        }
+                    }
+                    4 => v.reserve(rng.below(30) as usize),
+                    _ => v.shrink_to_fit(),
+                }
+                let lower = v.capacity() * std::mem::size_of::<String>() + v.iter().map(|s| s.capacity()).sum::<usize>();
+                p.bounded(&v, lower, (v.len(), v.capacity()));
+            }
+        }
+        42 => {
+            // the owner lives outside the bracket: a reference contributes 0 and holds 0
+            let owner = gen_string(rng);
+            p.base = alloc::live_bytes();
+            let v = &owner;
+            p.exact(&v, (0, 0));
+            let _ = v;
+        }
+        43 => {
+            let owner = gen_bytes(rng);
+            p.base = alloc::live_bytes();
+            let v = (&owner, gen_string(rng));
+            p.exact(&v, (v.1.len(), v.1.capacity()));
+        }
+        44 => hist_vec(&mut p, rng, steps, &gen_pathbuf),
+        45 => {
+            let v = if rng.chance(1, 5) { None } else { Some(Box::new((gen_osstring(rng), gen_cstring(rng)))) };
+            p.exact(&v, (v.is_some() as usize, 0));
+        }
+        _ => unreachable!(),
+    }
+    alloc::set_tracking(false);
+    out
+}
+
+fn hist_vec<T: lru_mem::MemSize>(p: &mut Probe, rng: &mut Rng, steps: usize, elem: &dyn Fn(&mut Rng) -> T) {
+    let mut v = gen_vec(rng, elem);
+    p.exact(&v, (v.len(), v.capacity()));
+    for _ in 0..steps {
+        step_vec(&mut v, rng, elem);
+        p.exact(&v, (v.len(), v.capacity()));
+    }
+}
+
+fn hist_heap<T: lru_mem::MemSize + Ord>(p: &mut Probe, rng: &mut Rng, steps: usize, elem: &dyn Fn(&mut Rng) -> T) {
+    let mut v = gen_heap(rng, elem);
+    p.exact(&v, (v.len(), v.capacity()));
+    for _ in 0..steps {
+        step_heap(&mut v, rng, elem);
+        p.exact(&v, (v.len(), v.capacity()));
+    }
+}
+
+// ------------------------------------------------------------------------------------------
+
+fn class_of(name: &str) -> String {
+    let mut s = String::from("heap-size-mismatch-");
+    for c in name.chars() {
+        if c.is_ascii_alphanumeric() {
+            s.push(c);
+        } else if !s.ends_with('_') {
+            s.push('_');
+        }
+    }
+    s.trim_end_matches('_').to_string()
+}
+
+pub fn replay(v: &serde_json::Value, path: &str) -> i32 {
+    let case = v["case"].as_u64().unwrap_or(0) as usize;
+    let seed = v["case_seed"].as_u64().unwrap_or(0);
+    let class = v["violation"].as_str().unwrap_or("").to_string();
+    println!("replaying {} (property C09, type {}, case seed {})", path, CASE_NAMES.get(case).copied().unwrap_or("?"), seed);
+    if case >= N_CASES {
+        eprintln!("harness error: bad case index");
+        return 2;
+    }
+    let out = run_case(case, seed);
+    match out.mismatch {
+        Some(m) if class.is_empty() || class_of(m.name) == class => {
+            println!("  {} after {} history steps: heap_size() = {}, allocator holds {} bytes ({})", m.name, m.step, m.heap_size, m.allocator, m.detail);
+            let known = load_known();
+            if let Some(what) = is_known_pub(&known, "C09", &class) {
+                println!("KNOWN-FINDING: property=C09 {}", what);
+                return 0;
+            }
+            println!("VIOLATION property=C09 replay={}", path);
+            1
+        }
+        _ => {
+            println!("NOT REPRODUCED: heap_size matched the allocator ledger at every step");
+            0
+        }
+    }
+}
+
+pub fn check_main(tier: &str, verif_seed: u64) -> i32 {
+    let t0 = std::time::Instant::now();
+    let thorough = tier == "thorough";
+    let per_case: u64 = std::env::var("LRUSIM_UNITS").ok().and_then(|s| s.parse().ok()).unwrap_or(if thorough { 400_000 } else { 20_000 });
+    let nthreads = std::thread::available_parallelism().map(|n| n.get()).unwrap_or(4).min(16);
+    let mut handles = Vec::new();
+    for t in 0..nthreads {
+        handles.push(std::thread::spawn(move || {
+            let mut checks = 0u64;
+            let mut values = 0u64;
+            let mut digests: Vec<u64> = Vec::new();
+            let mut mism: BTreeMap<usize, (Mismatch, u64)> = BTreeMap::new();
+            let mut samples: Vec<String> = Vec::new();
+            let mut per_type: BTreeMap<&'static str, u64> = BTreeMap::new();
+            for case in 0..N_CASES {
+                let mut i = t as u64;
+                while i < per_case {
+                    let seed = derive(verif_seed, 9_000 + case as u64, i);
+                    let out = run_case(case, seed);
+                    checks += out.checks;
+                    values += 1;
+                    *per_type.entry(CASE_NAMES[case]).or_insert(0) += out.checks;
+                    digests.extend(out.nontrivial);
+                    if let Some(m) = out.mismatch {
+                        mism.entry(case).or_insert((m, seed));
+                    }
+                    if let Some(s) = out.sample {
+                        if samples.len() < 2 && i % 97 == 3 {
+                            samples.push(s);
+                        }
+                    }
+                    i += nthreads as u64;
+                }
+                if digests.len() > 2_000_000 {
+                    digests.sort_unstable();
+                    digests.dedup();
+                }
+            }
+            digests.sort_unstable();
+            digests.dedup();
+            (checks, values, digests, mism, samples, per_type)
+        }));
+    }
+    let mut checks = 0u64;
+    let mut values = 0u64;
+    let mut digests: Vec<u64> = Vec::new();
+    let mut mism: BTreeMap<usize, (Mismatch, u64)> = BTreeMap::new();
+    let mut samples: Vec<String> = Vec::new();
+    let mut per_type: BTreeMap<&'static str, u64> = BTreeMap::new();
+    for h in handles {
+        match h.join() {
+            Ok((c, v, d, m, s, pt)) => {
+                checks += c;
+                values += v;
+                digests.extend(d);
+                for (k, x) in m {
+                    mism.entry(k).or_insert(x);
+                }
+                for x in s {
+                    if samples.len() < 3 {
+                        samples.push(x);
+                    }
+                }
+                for (k, x) in pt {
+                    *per_type.entry(k).or_insert(0) += x;
+                }
+            }
+            Err(_) => {
+                eprintln!("harness error: a C09 worker thread panicked");
+                return 2;
+            }
+        }
+    }
+    digests.sort_unstable();
+    digests.dedup();
+    let known = load_known();
+    let mut violations = 0;
+    let mut known_hits: BTreeMap<String, u64> = BTreeMap::new();
+    for (case, (m, seed)) in &mism {
+        let class = class_of(m.name);
+        if let Some(what) = is_known_pub(&known, "C09", &class) {
+            println!("KNOWN-FINDING: property=C09 {}", what);
+            *known_hits.entry(class).or_insert(0) += 1;
+            continue;
+        }
+        let path = replay_dir().join(format!("C09-{}-{}.json", verif_seed, class));
+        let v = json!({"property": "C09", "mode": "c09", "violation": class, "case": case, "case_seed": seed, "type": m.name,
+            "message": format!("{} after {} history steps: heap_size() = {}, allocator holds {} bytes ({})", m.name, m.step, m.heap_size, m.allocator, m.detail)});
+        let _ = std::fs::write(&path, serde_json::to_string_pretty(&v).unwrap());
+        // verify in a fresh process
+        let (end, outp) = crate::coord::run_child(&["replay", path.to_str().unwrap()], std::time::Duration::from_secs(30));
+        if !(end == crate::coord::ChildEnd::Exited(1) && outp.contains("VIOLATION property=C09")) {
+            eprintln!("harness error: C09 mismatch for {} did not replay in a fresh process ({:?})", m.name, end);
+            return 2;
+        }
+        println!("violation [C09] {}: {} after {} history steps: heap_size() = {}, allocator holds {} bytes ({})", class, m.name, m.step, m.heap_size, m.allocator, m.detail);
+        println!("VIOLATION property=C09 replay={}", path.display());
+        violations += 1;
+    }
+    let wall = t0.elapsed().as_secs_f64();
+    if samples.is_empty() {
+        samples.push("no sample collected".into());
+    }
+    let evidence = json!({
+        "property_id": "C09",
+        "tier": tier,
+        "seed": verif_seed,
+        "level": "exploration",
+        "coverage": {
+            "evaluations": checks,
+            "distinct_nontrivial": digests.len(),
+            "rule": "each evaluation compares heap_size() of one value with the simulated allocator's live-byte ledger after one step of a seeded build history (with_capacity / push / extend / insert / reserve / reserve_exact / shrink_to_fit / shrink_to / truncate / clear / pop at the top level and inside elements) for one of 46 concrete types; non-trivial = the value holds at least one byte from the allocator; distinct = distinct digests of (type, heap_size, top-level length, top-level capacity)",
+            "samples": samples,
+            "values_built": values,
+            "types": N_CASES,
+            "checks_per_type": per_type,
+            "runs_per_hour": if wall > 0.0 { (values as f64 / wall * 3600.0) as u64 } else { 0 },
+            "fault_kinds": {},
+            "components": { "real": ["lru_mem::HeapSize impls (mem_size.rs)", "std collections", "std System allocator underneath SimAlloc"], "stub": ["SimAlloc (counting allocator ledger, per thread)"] },
+            "simulated_time": "not applicable",
+            "note": "edge of the technique family: the simulated component is the allocator; there is no schedule or fault dimension for this property",
+            "known_findings_hit": known_hits,
+        },
+        "assumptions": ["requested layout sizes are the ground truth for 'bytes held' (allocator-internal rounding is not counted)", "std's Mutex/RwLock hold no heap memory on this target (futex-based)"],
+        "wall_s": wall,
+        "violations": violations,
+    });
+    let evdir = root_dir().join("evidence");
+    let _ = std::fs::create_dir_all(&evdir);
+    if std::fs::write(evdir.join("C09.json"), serde_json::to_string_pretty(&evidence).unwrap()).is_err() {
+        eprintln!("harness error: cannot write evidence");
+        return 2;
+    }
+    println!("C09 {}: {} values of {} types, {} conservation checks, {} distinct non-trivial shapes, {:.1}s; violations {}", tier, values, N_CASES, checks, digests.len(), wall, violations);
+    if violations > 0 {
+        1
+    } else {
+        0
+    }
 }
